@@ -31,7 +31,7 @@ for m in sorted(glob.glob('/verif/seeded/*/meta.json')):
     try:
         if json.load(open(m)).get('property') == prop: muts.append(os.path.dirname(m) + '/patch.diff')
     except Exception: pass
-refs = sorted(glob.glob('/verif/refactors/*.diff')) + sorted(glob.glob('/verif/refactors_indep/*/patch.diff'))
+refs = sorted(glob.glob('/verif/refactors/*.diff')) + sorted(p for p in glob.glob('/verif/refactors_indep/*/patch.diff') if not os.path.exists(os.path.dirname(p) + '/RETIRED.txt'))
 with cf.ThreadPoolExecutor(max_workers=8) as ex:
     mres = list(ex.map(run, muts)); rres = list(ex.map(run, refs))
 ev_path = f'/verif/evidence/{prop}.json'
